@@ -2,7 +2,8 @@
 """Behaviour-preserving whole-repository transformations; every check must stay silent (exit 0) on the transformed copy.
    reformat : every module re-emitted by ast.unparse (comments dropped, quotes / parentheses / line breaks normalised)
    rename   : local variables of every function renamed consistently (x -> x_r), parameters / globals / closure variables kept
-usage: twin_battery.py [reformat|rename|both] [Cxx ...]"""
+   pad / split / ifswap / retvar / cmpflip / kwsort : see the *_module functions
+usage: twin_battery.py [reformat|rename|pad|split|ifswap|retvar|cmpflip|kwsort|both] [Cxx ...] [--keep=DIR]"""
 import ast, os, shutil, subprocess, sys, tempfile, builtins
 
 REPO = "/repo"
@@ -125,6 +126,69 @@ def split_module(tree):
     return t
 
 
+def ifswap_module(tree):
+    """`if c: A else: B` becomes `if not c: B else: A` (statements with an else branch only), inside function bodies"""
+    class I(ast.NodeTransformer):
+        def visit_If(self, n):
+            self.generic_visit(n)
+            if n.orelse:
+                n.test = ast.UnaryOp(op=ast.Not(), operand=n.test)
+                n.body, n.orelse = n.orelse, n.body
+            return n
+
+        def visit_IfExp(self, n):
+            self.generic_visit(n)
+            n.test = ast.UnaryOp(op=ast.Not(), operand=n.test)
+            n.body, n.orelse = n.orelse, n.body
+            return n
+    return I().visit(tree)
+
+
+def retvar_module(tree):
+    """`return <expression>` becomes `_ret = <expression>; return _ret`"""
+    class R(ast.NodeTransformer):
+        def generic_visit(self, node):
+            super().generic_visit(node)
+            for fld in ("body", "orelse", "finalbody"):
+                sub = getattr(node, fld, None)
+                if isinstance(sub, list) and sub and isinstance(sub[0], ast.stmt):
+                    out = []
+                    for st in sub:
+                        if isinstance(st, ast.Return) and st.value is not None and not isinstance(st.value, (ast.Name, ast.Constant)):
+                            out.append(ast.Assign(targets=[ast.Name(id="_ret", ctx=ast.Store())], value=st.value))
+                            st.value = ast.Name(id="_ret", ctx=ast.Load())
+                        out.append(st)
+                    setattr(node, fld, out)
+            return node
+    return R().visit(tree)
+
+
+def cmpflip_module(tree):
+    """a comparison of an expression with a numeric literal is written the other way round: `x > 1` -> `1 < x`, `x == 0` -> `0 == x`"""
+    flip = {ast.Lt: ast.Gt, ast.Gt: ast.Lt, ast.LtE: ast.GtE, ast.GtE: ast.LtE, ast.Eq: ast.Eq, ast.NotEq: ast.NotEq}
+
+    class C(ast.NodeTransformer):
+        def visit_Compare(self, n):
+            self.generic_visit(n)
+            if len(n.ops) == 1 and type(n.ops[0]) in flip and isinstance(n.comparators[0], ast.Constant) and isinstance(n.comparators[0].value, (int, float)) \
+                    and not isinstance(n.comparators[0].value, bool) and not isinstance(n.left, ast.Constant):
+                n.left, n.comparators = n.comparators[0], [n.left]
+                n.ops = [flip[type(n.ops[0])]()]
+            return n
+    return C().visit(tree)
+
+
+def kwsort_module(tree):
+    """keyword arguments of every call are written in reversed order"""
+    class K(ast.NodeTransformer):
+        def visit_Call(self, n):
+            self.generic_visit(n)
+            if len(n.keywords) > 1 and all(k.arg is not None for k in n.keywords):
+                n.keywords = list(reversed(n.keywords))
+            return n
+    return K().visit(tree)
+
+
 def transform(dst, what):
     n = 0
     for dp, dn, fns in os.walk(os.path.join(dst, "renormalizer")):
@@ -142,6 +206,8 @@ def transform(dst, what):
                 tree = pad_module(tree)
             if what == "split":
                 tree = split_module(tree)
+            if what in EXTRA:
+                tree = EXTRA[what](tree)
             ast.fix_missing_locations(tree)
             out = ast.unparse(tree)
             compile(out, p, "exec")
@@ -150,6 +216,7 @@ def transform(dst, what):
     return n
 
 
+EXTRA = {"ifswap": ifswap_module, "retvar": retvar_module, "cmpflip": cmpflip_module, "kwsort": kwsort_module}
 rc = 0
 for what in (["reformat", "rename", "pad"] if mode == "both" else [mode]):
     tmp = tempfile.mkdtemp(prefix="renostat-twin-") if not keep else keep[0]
